@@ -1,15 +1,22 @@
 /* C12: frequent_items_sketch<uint64_t>, lg_max_map_size = 3 (8 slots, purge above 6 active items), CONCRETE distinct items 1..NA+NB
  * (so that hashing / probing is concrete) with SYMBOLIC weights. Sketch A gets items 1..NA, sketch B items NA-OV+1..NA-OV+NB
- * (OV items overlap), MERGE=1 merges B into A. Every item's true total weight must be bracketed, total weight exact. */
+ * (OV items overlap), MERGE=1 merges B into A. Every item's true total weight must be bracketed, total weight exact.
+ * NSYM: only the LAST NSYM weights drawn are symbolic (1..1000), the others are concrete (13, 23, 33, ...): a symbolic weight makes the
+ * zero-weight early return of update() a symbolic branch, so each one doubles the paths symex has to keep. */
 #include "harness.h"
 #include "api.h"
 #define NI (NA + NB)
+#ifndef NSYM
+#define NSYM NI
+#endif
+static int drawn;
+static uint64_t weight(void) { int i = drawn++; if (i >= NI - NSYM) return ND_RANGE(1, 1000); return 13 + 10 * (uint64_t)i; }
 void harness(void) {
   void* a = w_fi_new(3, 3); void* b = w_fi_new(3, 3);
   uint64_t truth[NI + 2]; uint64_t total = 0;
   for (int i = 0; i <= NI; i++) truth[i] = 0;
-  for (int i = 0; i < NA; i++) { uint64_t w = ND_RANGE(0, 1000); ASSERT(w_fi_update(a, 1 + i, w) == 0, "update accepted"); truth[1 + i] += w; total += w; }
-  for (int i = 0; i < NB; i++) { uint64_t w = ND_RANGE(0, 1000); uint64_t it = NA - OV + 1 + i; w_fi_update(MERGE ? b : a, it, w); truth[it] += w; total += w; }
+  for (int i = 0; i < NA; i++) { uint64_t w = weight(); ASSERT(w_fi_update(a, 1 + i, w) == 0, "update accepted"); truth[1 + i] += w; total += w; }
+  for (int i = 0; i < NB; i++) { uint64_t w = weight(); uint64_t it = NA - OV + 1 + i; w_fi_update(MERGE ? b : a, it, w); truth[it] += w; total += w; }
 #if MERGE
   ASSERT(w_fi_merge(a, b) == 0, "merge accepted");
 #endif
